@@ -247,7 +247,9 @@ theorem run_openFollowH_fd (hw : w.WF) (f : Fd) (p : List Bytes) (hp : w.dpath f
   have hm := run_fetchMntId_proc (w := w) fdDir fdDir_onProc []
   have hv := run_verifySameMnt_proc (w := w) fdDir fdDir_onProc (Path.decimal f.toNat)
   have hfin := run_openatFollow_fd (w := w) f hf flags
-  simp only [strip_fdpath, Bool.false_eq_true, ↓reduceIte, hcf', M.bind_def, run_bind'_simp, run_try_simp, hrl,
+  simp only [strip_fdpath, Bool.false_eq_true, ↓reduceIte, hcf', M.bind_def, run_bind'_simp, run_try_simp, hrl]
+  unfold Procfs.openFollowTail
+  simp only [M.bind_def, run_bind'_simp, run_try_simp,
     pathSplit_fdpath, run_do_liftE, hfuel, hop, run_onErr_simp, hm, hv, hfin, run_do_liftP,
     run_ofExcept_simp]
   cases openKind (w.kind f) flags <;> rfl
